@@ -79,7 +79,8 @@ type thr struct {
 	seen map[string]bool
 	// inOp: the thread is blocked natively inside the operation of statement parkedAt (the
 	// statement's yield was passed earlier: several visible operations in one statement)
-	inOp bool
+	inOp     bool
+	inOpStmt string
 	// asyncEv: an event of this thread that arrived while another thread was being run (the
 	// thread was released from inside a native operation by somebody else's step)
 	asyncEv *event
@@ -515,7 +516,10 @@ func Run(tracePath string, entry func()) Result {
 		if len(future) > 0 {
 			next = future[0]
 		}
-		if t.parkedAt != st.Stmt {
+		// the thread sits (or sat) inside the native operation of exactly this statement; if it
+		// has been released by another thread's step it is already parked further on
+		inside := t.inOp && t.inOpStmt == st.Stmt
+		if !inside && t.parkedAt != st.Stmt {
 			if t.skipped[st.Stmt] > 0 {
 				t.skipped[st.Stmt]--
 				logf("step %d: T%d already executed %s natively (merged into its previous segment)", k, st.Th, st.Stmt)
@@ -532,7 +536,9 @@ func Run(tracePath string, entry func()) Result {
 		t.started = true
 		t.future = future
 		t.curStmt = st.Stmt
-		t.parkedAt = ""
+		if !(inside && t.asyncEv != nil && t.asyncEv.kind == "park") {
+			t.parkedAt = ""
+		}
 		mu.Lock()
 		t.selStmt, t.selChoice = "", -1
 		if st.Sel > 0 {
@@ -584,6 +590,7 @@ func Run(tracePath string, entry func()) Result {
 					// the goroutine is now blocked inside that statement's operation
 					t.parkedAt = next
 					t.inOp = true
+					t.inOpStmt = next
 					if len(t.future) > 0 {
 						t.future = t.future[1:]
 					}
